@@ -296,12 +296,25 @@ static void build_lanes(T* x, int n, int p, int kind, const std::string& op, uin
         {
             // strict witness: every other lane is pushed strictly below (above) it
             T w = ismax ? (kind == 2 ? (T)(L::max() - (T)(rnd(999) % 3)) : (T)120) : (kind == 2 ? (T)(L::min() + (T)(rnd(998) % 3)) : (std::is_signed<T>::value ? (T)-120 : (T)1));
+            // witness on the "wrong" side of zero / at the far end of the range: a fold seeded with 0, with the wrong
+            // numeric_limits member or with a neighbouring constant returns something that is not a lane
+            const unsigned wsel = (unsigned)(rnd(997) % 4);
+            if (kind != 1 && wsel == 1)
+                w = ismax ? (std::is_signed<T>::value ? (T)(-3 - (int)(rnd(996) % 5)) : (T)(1 + rnd(996) % 5)) : (T)(3 + rnd(996) % 5);
+            else if (kind != 1 && wsel == 2)
+                w = ismax ? (T)(L::min() + (T)(1 + rnd(995) % 3)) : (T)(L::max() - (T)(1 + rnd(995) % 3));
             for (int i = 0; i < n; ++i)
             {
                 if (ismax && x[i] >= w)
-                    x[i] = (T)(w - 1 - (T)(rnd(i + 64) % 5));
+                {
+                    const uint64_t room = (uint64_t)((model::i128)w - (model::i128)L::min()); // values strictly below w
+                    x[i] = (T)(w - 1 - (T)(rnd(i + 64) % std::min<uint64_t>(room, 100)));
+                }
                 if (ismin && x[i] <= w)
-                    x[i] = (T)(w + 1 + (T)(rnd(i + 64) % 5));
+                {
+                    const uint64_t room = (uint64_t)((model::i128)L::max() - (model::i128)w);
+                    x[i] = (T)(w + 1 + (T)(rnd(i + 64) % std::min<uint64_t>(room, 100)));
+                }
             }
             x[p] = w;
         }
@@ -354,12 +367,45 @@ static void build_lanes(T* x, int n, int p, int kind, const std::string& op, uin
             T w = ismax ? (T)1e30 : (T)-1e30;
             if (kind == 1)
                 w = ismax ? (T)501 : (T)-501;
+            else
+            {
+                // the maximum may be negative, zero, subnormal or the largest finite value (minimum: mirrored); every other
+                // lane lies strictly on the far side of it
+                static const double wl[] = { 1e30, 1.5, -1.0, -1e-30, -1e30, 0.0, 1e30, 501.0 };
+                const unsigned wsel = (unsigned)(rnd(997) % 12);
+                T m;
+                if (wsel < 8)
+                    m = (T)wl[wsel];
+                else if (wsel == 8)
+                    m = L::min(); // smallest normal
+                else if (wsel == 9)
+                    m = L::denorm_min() * (T)3;
+                else if (wsel == 10)
+                    m = -L::denorm_min() * (T)2;
+                else
+                    m = L::max();
+                w = ismax ? m : -m;
+            }
+            auto beyond = [&](uint64_t r) -> T {
+                // a value strictly below w (max) / strictly above w (min)
+                const T sgn = ismax ? (T)-1 : (T)1;
+                T v;
+                if (w == 0 || std::fpclassify(w) == FP_SUBNORMAL)
+                    v = (r & 8) ? w + sgn * (T)(1 + r % 7) * L::denorm_min() : sgn * (T)(1 + (r >> 4) % 1000);
+                else
+                {
+                    v = w + sgn * std::fabs(w) * (T)(0.25 + (double)(r % 1000) / 1000.0);
+                    if (std::isinf(v))
+                        v = ismax ? L::lowest() : L::max();
+                }
+                return v;
+            };
             for (int i = 0; i < n; ++i)
             {
                 if (ismax && x[i] >= w)
-                    x[i] = w / 2;
+                    x[i] = kind == 1 ? w / 2 : beyond(rnd(i + 64));
                 if (ismin && x[i] <= w)
-                    x[i] = w / 2;
+                    x[i] = kind == 1 ? w / 2 : beyond(rnd(i + 64));
             }
             x[p] = w;
         }
